@@ -232,7 +232,24 @@ def assign_heights(rng, t: Node, leaf_height: dict):
 PARTIAL_AMB = "RYMWSKBDHV"
 
 
-def random_alignment(rng, names, nsites, alphabet=NUC18, plain="ACGT", p_amb=0.25, repeat=True, lower=False, special=False):
+def twin_columns(rng, names, plain, ambig):
+    """two or three columns that differ ONLY in which ambiguity code ONE tip carries (same `encoding`, different tip
+    vector — e.g. R in one, Y in the other, a gap in the third), each with its own multiplicity; all other tips show
+    plain states.  Merging such columns into one pattern changes the likelihood."""
+    base = rng.choice(plain)
+    col = [base if rng.random() < 0.6 else rng.choice(plain) for _ in names]
+    i = rng.randrange(len(names))
+    k = min(len(ambig), rng.choice([2, 2, 3]))
+    out = []
+    for sym in rng.sample(list(ambig), k):
+        c = list(col)
+        c[i] = sym
+        out += ["".join(c)] * rng.choice([1, 1, 2, 3])
+    return out
+
+
+def random_alignment(rng, names, nsites, alphabet=NUC18, plain="ACGT", p_amb=0.25, repeat=True, lower=False, special=False,
+                     twins=None):
     """columns as strings (one character per name). With `special` (nucleotides) the alignment is guaranteed to
     contain: a column in which NO taxon is unambiguous (every tip a partial ambiguity code R,Y,M,W,S,K,B,D,H,V),
     one where those are mixed with N/-/?, an all-gap column, a column repeated many times, RNA-style U/u."""
@@ -272,6 +289,10 @@ def random_alignment(rng, names, nsites, alphabet=NUC18, plain="ACGT", p_amb=0.2
             extra += [extra[0]] * rng.randint(2, 5)
         for c in extra:
             cols.insert(rng.randint(0, len(cols)), c)
+    if twins:
+        for _ in range(rng.choice([1, 1, 2])):
+            for c in twin_columns(rng, names, plain, twins):
+                cols.insert(rng.randint(0, len(cols)), c)
     return {nm: "".join(c[i] for c in cols) for i, nm in enumerate(names)}
 
 
@@ -617,15 +638,18 @@ def gen_case(rng, n, topo: Node | None = None, subst=None, site=None, rooting=No
     gen = None
     if general:
         dt = "general"
-        S = rng.choice([2, 3, 5])
+        S = rng.choice([2, 3, 3, 4, 5])
         codes = rng.sample(list("0123456789ABCDEFGHXYZabc"), S)
         spare = [c for c in "KLMNPQRSTUVWklmn" if c not in codes]
         rng.shuffle(spare)
         amb = {}
         if S >= 3:
             amb[spare.pop()] = rng.sample(codes, 2)
-            if rng.random() < 0.5:
-                amb[spare.pop()] = rng.sample(codes, S - 1 if S > 3 else 2)
+            if rng.random() < 0.75:
+                other = rng.sample(codes, S - 1 if S > 3 else 2)
+                while sorted(other) in [sorted(v) for v in amb.values()]:
+                    other = rng.sample(codes, 2)
+                amb[spare.pop()] = other
         if rng.random() < 0.7:
             amb[spare.pop()] = rng.choice(codes)  # alias, e.g. {'U': 'T'}
         gen = {"codes": codes, "ambiguities": amb}
@@ -645,13 +669,16 @@ def gen_case(rng, n, topo: Node | None = None, subst=None, site=None, rooting=No
     if nsites is None:
         nsites = rng.randint(4, 9) if dt != "codon" else rng.randint(2, 4)
     if dt == "nucleotide":
-        seqs = random_alignment(rng, names, nsites, NUC18, "ACGT", lower=True,
-                                special=(rng.random() < 0.6) if special is None else special)
+        sp = (rng.random() < 0.6) if special is None else special
+        seqs = random_alignment(rng, names, nsites, NUC18, "ACGT", lower=True, special=sp,
+                                twins=(PARTIAL_AMB + "N-?") if sp else None)
     elif dt == "aa":
         seqs = random_alignment(rng, names, nsites, AA_ALL, AA20, p_amb=0.3, lower=True)
     elif dt == "general":
         alphabet = gen["codes"] + list(gen["ambiguities"]) + ["?", "-"]
-        seqs = random_alignment(rng, names, nsites, "".join(alphabet), "".join(gen["codes"]), p_amb=0.35)
+        same_enc = [k for k, v in gen["ambiguities"].items() if not isinstance(v, str)] + ["?", "-"]  # encoding = state_count
+        seqs = random_alignment(rng, names, nsites, "".join(alphabet), "".join(gen["codes"]), p_amb=0.35,
+                                twins=same_enc if len(gen["codes"]) >= 3 else None)
     else:
         seqs = random_codon_alignment(rng, names, nsites, genetic_code)
     case = {"taxa": taxa, "seq_order": seq_order, "seqs": seqs, "datatype": dt, "rooting": rooting,
@@ -1009,6 +1036,24 @@ def alignment_features(case):
     if any(c in "Uu" for col in cols for c in col):
         out.append("rna-U")
     return out
+
+
+def twin_features(case):
+    """number of pairs of columns of the alignment that differ in exactly one tip, both symbols there being
+    non-plain (ambiguity code / gap) but different"""
+    dt = dt_of(case)
+    if dt["size"] != 1:
+        return 0
+    sym = site_symbols(case)
+    cols = sorted(set(tuple(s[nm] for nm in case["taxa"]) for s in sym))
+    cnt = 0
+    for a in range(len(cols)):
+        for b in range(a + 1, len(cols)):
+            d = [i for i in range(len(cols[a])) if cols[a][i] != cols[b][i]]
+            if len(d) == 1 and dt["state"](cols[a][d[0]]) >= dt["S"] and dt["state"](cols[b][d[0]]) >= dt["S"] \
+                    and dt["vec"](cols[a][d[0]], True) != dt["vec"](cols[b][d[0]], True):
+                cnt += 1
+    return cnt
 
 
 # ----------------------------------------------------------------------------- extended-range reference (large trees)
